@@ -16,4 +16,11 @@ Section Rd.
     match rdv ws a idx (VV x) with VV y => y | _ => x end.
   Definition rdZs (ws : list (write S)) (a : string) (idx : list Z) (x : list Z) : list Z :=
     match rdv ws a idx (VZs x) with VZs y => y | _ => x end.
+  (* writes of a called procedure, named by ITS parameters, rebased onto the caller's arrays:
+     parameter p bound to (a view of) array r at index prefix pre *)
+  Definition rebase (m : list (string * (string * list Z))) (ws : list (write S)) : list (write S) :=
+    map (fun w => match find (fun p => String.eqb (fst p) (w_arr w)) m with
+                  | Some (_, (r, pre)) => mkW r (pre ++ w_idx w)%list (w_kind w) (w_val w)
+                  | None => w
+                  end) ws.
 End Rd.
